@@ -1,6 +1,9 @@
 import GraafVerif.Driver.Common
 import GraafVerif.Model.PredTree
-/-! Driver handlers for C19: `pt_search_by pred s tgt`, `pt_search pred s t`. -/
+/-! Driver handlers for C19: `pt_search_by pred s tgt`, `pt_search pred s t`,
+`pt_big len dflt [[i e]…] s tgt` (long vector in a compact description; `[eq t]` = `search`).
+Predicates: `[eq t] [in [..]] [predeq x] prednone always never [reach2 pred2 t]` (the last one
+runs the model's `search` on a second vector: a pure function of the vertex). -/
 namespace GraafVerif.Driver.H19
 open GraafVerif GraafVerif.Driver GraafVerif.PredTree
 
@@ -12,6 +15,13 @@ def parseTgt : V → Option (Nat → Option Nat → Bool)
   | .a "prednone" => some (fun _ p => p.isNone)
   | .a "always" => some (fun _ _ => true)
   | .a "never" => some (fun _ _ => false)
+  | .l [.a "reach2", pred2, t] => do
+    let pred2 ← V.listOf? (V.opt? V.nat?) pred2
+    let t ← V.nat? t
+    pure (fun v _ => decide (v < pred2.length) &&
+      (match search pred2 v t with
+       | .ret (some _) => true
+       | _ => false))
   | _ => none
 
 def resToV : Res → List V
@@ -66,7 +76,12 @@ def hSearchBy : Handler := fun _ args obs =>
     let pred ← V.listOf? (V.opt? V.nat?) pred
     let s ← V.nat? s
     let isT ← parseTgt tgt
-    pure (run pred s isT obs)
+    let v := run pred s isT obs
+    let kind := match tgt with
+      | .l (.a k :: _) => k
+      | .a k => k
+      | _ => "?"
+    pure { v with tags := v.tags ++ ["tgt-" ++ kind] }
   | _ => none
 
 def hSearch : Handler := fun _ args obs =>
@@ -80,6 +95,69 @@ def hSearch : Handler := fun _ args obs =>
     if resToV (search pred s t) == resToV (searchBy pred s (fun v _ => v == t)) then pure v else none
   | _ => none
 
-def handlers : List (String × Handler) := [("pt_search_by", hSearchBy), ("pt_search", hSearch)]
+/-! ## long vectors (round 2b) -/
+
+/-- Expand the compact description. -/
+def buildBig (len : Nat) (dflt : V) (exc : List (Nat × Option Nat)) : Option (Array (Option Nat)) := do
+  let base : Array (Option Nat) ←
+    match dflt with
+    | .a "none" => some (Array.replicate len none)
+    | .a "self" => some ((Array.range len).map some)
+    | .a "next" => some ((Array.range len).map (fun i => if i + 1 < len then some (i + 1) else none))
+    | .a "prev" => some ((Array.range len).map (fun i => if i = 0 then none else some (i - 1)))
+    | v => (V.nat? v).map (fun d => Array.replicate len (some d))
+  exc.foldlM (fun a e => if e.1 < a.size then some (a.set! e.1 e.2) else none) base
+
+/-- Array twin of the spec oracle: follow the chain (O(1) per link), stop at the first target,
+at the end of the chain, or after `len + 2` links. Returns the path and the number of links. -/
+def oracleArr (pred : Array (Option Nat)) (s : Nat) (isT : Nat → Option Nat → Bool) : Option (List Nat) :=
+  let rec go (fuel : Nat) (x : Nat) (acc : List Nat) : Option (List Nat) :=
+    match fuel with
+    | 0 => none
+    | fuel+1 =>
+      let e := (pred[x]?).getD none
+      if isT x e then some (x :: acc).reverse
+      else match e with
+        | none => none
+        | some y => go fuel y (x :: acc)
+  go (pred.size + 2) s []
+
+def hBig : Handler := fun _ args obs =>
+  match args with
+  | [len, dflt, exc, s, tgt] => do
+    let len ← V.nat? len
+    let exc ← V.listOf? (V.pair? V.nat? (V.opt? V.nat?)) exc
+    let s ← V.nat? s
+    let isT ← parseTgt tgt
+    if len > 1048576 then none
+    else
+      let arr ← buildBig len dflt exc
+      let pred : Pred := arr.toList
+      let applicable := arr.all (fun e => match e with | none => true | some v => v < len) && s < len
+      let model := resToV (searchBy pred s isT)
+      let want := resToV (.ret (oracleArr arr s isT))
+      let propFail : Option String :=
+        if applicable then (if obs == want then none else some s!"spec-says {want}") else none
+      -- does the chain (up to the first target) step onto one of the top `len % 64` ids?
+      let visitedIds : List Nat :=
+        match oracleArr arr s isT with
+        | some p => p
+        | none => (match oracleArr arr s (fun _ e => e.isNone) with | some p => p | none => [])
+      let word0 := (len / 64) * 64
+      let steppedTop := (visitedIds.drop 1).any (fun x => x ≥ word0)
+      let outcome :=
+        match obs with
+        | [V.l [_]] => "hit-at-start"
+        | [V.l _] => "hit-later"
+        | [V.a "panic"] => "res-panic"
+        | _ => "miss"
+      let tags := [ if applicable then "in-range" else "out-of-range", "big", outcome,
+                    if len > 4096 then (if len % 64 == 0 then "len>4096-mult64" else "len>4096") else "len<=4096",
+                    if steppedTop then "steps-on-top-ids" else "no-top-id" ]
+      pure (classify obs model propFail (nt := true) tags)
+  | _ => none
+
+def handlers : List (String × Handler) :=
+  [("pt_search_by", hSearchBy), ("pt_search", hSearch), ("pt_big", hBig)]
 
 end GraafVerif.Driver.H19
